@@ -560,11 +560,28 @@ func exec(op string) (res string) {
 			return "NOT-roundtrip"
 		}
 		return "roundtrip"
+	case "lz4blk":
+		return execLz4blk(expand(w[1]), atoi(w[2]))
+	case "lz4brt":
+		return execLz4blk(expand(w[2]), len(expand(w[1])))
+	case "snapdec":
+		return execSnapdec(expand(w[1]))
+	case "snaprt":
+		z := expand(w[2])
+		a := execSnapdec(z)
+		if strings.HasPrefix(a, "ok:") {
+			a += fmt.Sprintf(" dom=%v", snapInDomain(z))
+		}
+		return a
+	case "big", "bigx":
+		return execBig(w)
 	case "nego":
 		return nego(w[1], w[2])
 	case "rx", "negoh", "negos":
 		// a crash on the reader goroutine of a connection kills the process: run in the worker child
 		return childExec(op)
+	case "senderr":
+		return execSenderr(w[1], w[2:])
 	case "held":
 		return execHeld(w[1], w[2:])
 	case "flight":
@@ -947,6 +964,16 @@ func main() {
 	}
 	for i := 0; i < nNegos; i++ {
 		op, cls := genNegos(r)
+		out.Case(op, exec(op), cls, true)
+	}
+
+	// 000b. compressor errors on the send path of a real connection, every request kind (send.go)
+	nSend := 150 * mult
+	if nSend > 900 {
+		nSend = 900
+	}
+	for i := 0; i < nSend; i++ {
+		op, cls := genSenderr(r)
 		out.Case(op, exec(op), cls, true)
 	}
 
@@ -1333,6 +1360,52 @@ func main() {
 		op := fmt.Sprintf("nego %s %s", name, sup)
 		a := exec(op)
 		out.Case(op, a, "nego/"+strings.Fields(a)[0], true)
+	}
+	// 6b. snappy as a concrete codec: the real Decode against the block format's decoder in Lean, on
+	//     valid / mutated / hand-made element streams; the real Encode's output decoded by that decoder
+	for i := 0; i < 1500*mult; i++ {
+		op, cls := genSnapdec(r, lens)
+		if op == "" {
+			out.Dist[cls]++
+			continue
+		}
+		out.Case(op, exec(op), cls, true)
+	}
+	snapMax, nBrt := 1<<15+1, 500
+	if tier == "thorough" {
+		snapMax, nBrt = 1<<16+1, 3000 // the encoder's output is on the op line: keep ops.txt in the tens of MB
+	}
+	for i := 0; i < nBrt; i++ {
+		op, cls := genSnaprt(r, snapMax, lens, lateLs[:9])
+		out.Case(op, exec(op), cls, true)
+	}
+	// 6b'. the LZ4 block format: pierrec's UncompressBlock against the format's decoder in Lean on
+	//      structurally complete blocks; CompressBlock's output decoded by that decoder
+	for i := 0; i < 1500*mult; i++ {
+		op, cls := genLz4blk(r, lens)
+		if op == "" {
+			out.Dist[cls]++
+			continue
+		}
+		out.Case(op, exec(op), cls, true)
+	}
+	for i := 0; i < nBrt; i++ {
+		op, cls := genLz4brt(r, snapMax, lens, lateLs[:9])
+		if op == "" {
+			out.Dist[cls]++
+			continue
+		}
+		out.Case(op, exec(op), cls, true)
+	}
+	// 6c. frames at the 256 MiB limit (the model answers through lengths only)
+	bigClasses := []string{"sender-too-big", "over"}
+	if tier == "thorough" {
+		bigClasses = []string{"sender-too-big", "sender-too-big", "at-limit-plain", "at-limit-compressible", "at-limit-compressible",
+			"near-limit-incompressible", "near-limit-incompressible", "over", "over", "over"}
+	}
+	for _, c := range bigClasses {
+		op, ans, cls := genBig(r, c)
+		out.Case(op, ans, cls, true)
 	}
 	// 7. the destination lz4 Encode hands to the block encoder (model vs code; last: a tie, not an input)
 	for _, n := range threshLens(maxPow) {
